@@ -223,10 +223,71 @@ theorem showInt_noWs (i : Int) : ∀ ch ∈ showInt i, isWs ch = false := by
     · exact allDig_noWs (showNat_spec _).2.2 ch hch
   · exact allDig_noWs (showNat_spec _).2.2 ch hch
 
-/-- **`int(str(i)) == i`** -/
-theorem readInt_showInt (i : Int) : readInt (showInt i) = .ok i := by
-  unfold readInt
-  rw [strip_of_noWs _ (showInt_noWs i)]
+/-! ### the preparation of a numeric literal (`numPrep`) on plain ASCII text -/
+
+theorem isSep_isWs (c : Char) (h : isSep c = true) : isWs c = true := by
+  unfold isSep at h
+  unfold isWs
+  simp only [Bool.and_eq_true, decide_eq_true_eq] at h
+  simp only [Bool.or_eq_true, Bool.and_eq_true, decide_eq_true_eq]
+  omega
+
+/-- no white space, ASCII only, no underscore: the literal is parsed as it stands -/
+def Plain (s : Str) : Prop := ∀ ch ∈ s, isWs ch = false ∧ ch.toNat < 128 ∧ ch ≠ '_'
+
+theorem any_isSep_of_noWs (s : Str) (h : ∀ ch ∈ s, isWs ch = false) : s.any isSep = false := by
+  rw [Bool.eq_false_iff]
+  intro ha
+  rw [List.any_eq_true] at ha
+  obtain ⟨ch, hch, hs⟩ := ha
+  have := isSep_isWs ch hs
+  rw [h ch hch] at this; cases this
+
+theorem deUs_of_noUs (b : Bool) (s : Str) (h : '_' ∉ s) : deUs b s = some s := by
+  induction s generalizing b with
+  | nil => rfl
+  | cons c r ih =>
+    have hc : c ≠ '_' := fun e => h (by simp [e])
+    have hr : '_' ∉ r := fun e => h (by simp [e])
+    unfold deUs
+    rw [if_neg hc, ih _ hr]; rfl
+
+theorem map_foldChar_ascii (s : Str) (h : ∀ ch ∈ s, ch.toNat < 128) : s.map foldChar = s := by
+  induction s with
+  | nil => rfl
+  | cons c r ih =>
+    have hc : foldChar c = c := by unfold foldChar; rw [if_pos (h c (by simp))]
+    rw [List.map_cons, hc, ih (fun ch hch => h ch (by simp [hch]))]
+
+theorem numPrep_plain (s : Str) (h : Plain s) : numPrep s = some s := by
+  unfold numPrep
+  rw [any_isSep_of_noWs s (fun ch hch => (h ch hch).1)]
+  simp only [Bool.false_eq_true, if_false]
+  rw [strip_of_noWs s (fun ch hch => (h ch hch).1), map_foldChar_ascii s (fun ch hch => (h ch hch).2.1)]
+  exact deUs_of_noUs _ s (fun hm => (h _ hm).2.2 rfl)
+
+theorem plain_digit (d : Nat) (h : d < 10) :
+    isWs (digitChar d) = false ∧ (digitChar d).toNat < 128 ∧ digitChar d ≠ '_' := by
+  have : d = 0 ∨ d = 1 ∨ d = 2 ∨ d = 3 ∨ d = 4 ∨ d = 5 ∨ d = 6 ∨ d = 7 ∨ d = 8 ∨ d = 9 := by omega
+  rcases this with rfl | rfl | rfl | rfl | rfl | rfl | rfl | rfl | rfl | rfl <;> decide +kernel
+
+theorem showInt_plain (i : Int) : Plain (showInt i) := by
+  intro ch hch
+  have key : ∀ s : Str, AllDig s → Plain s := by
+    intro s hs ch hch
+    obtain ⟨d, hd, rfl⟩ := hs ch hch
+    exact plain_digit d hd
+  unfold showInt at hch
+  split at hch
+  · simp only [List.mem_cons] at hch
+    rcases hch with rfl | hch
+    · decide +kernel
+    · exact key _ (showNat_spec _).2.2 ch hch
+  · exact key _ (showNat_spec _).2.2 ch hch
+
+/-- the ASCII core of `int()` on a printed integer -/
+theorem readIntA_showInt (i : Int) : readIntA (showInt i) = .ok i := by
+  unfold readIntA
   unfold showInt
   by_cases hi : i < 0
   · rw [if_pos hi]
@@ -237,6 +298,12 @@ theorem readInt_showInt (i : Int) : readInt (showInt i) = .ok i := by
     show (match readNat? (showNat i.natAbs) with
       | some n => Except.ok (if false then -(n : Int) else (n : Int)) | none => Except.error Err.value) = _
     rw [readNat?_showNat]; simp; omega
+
+/-- **`int(str(i)) == i`** -/
+theorem readInt_showInt (i : Int) : readInt (showInt i) = .ok i := by
+  unfold readInt
+  rw [numPrep_plain _ (showInt_plain i)]
+  exact readIntA_showInt i
 
 /-- the characters of a printed integer: digits and possibly a leading minus — no separator of the format -/
 theorem showInt_chars (i : Int) : ∀ ch ∈ showInt i, ch ≠ ',' ∧ ch ≠ ':' ∧ ch ≠ '\n' := by
